@@ -63,6 +63,7 @@ def main():
         elif a[0] == "--checks": checks = a[1].split(","); a = a[2:]
         elif a[0] == "--recheck": recheck = True; a = a[1:]
         elif a[0] == "--name": name = a[1]; a = a[2:]
+        elif a[0] == "--verify-only": a = a[1:]
         else: a = a[1:]
     if "--recheck" in sys.argv and not os.path.isdir(src):
         src = "/verif/seeded/%s" % name
@@ -113,6 +114,18 @@ def main():
         res["demo_failures"] = len(re.findall(r"test \S+ \.\.\. FAILED", out1))
     finally:
         sh(["git", "-C", "/repo", "worktree", "remove", "--force", wt]); shutil.rmtree(wt, ignore_errors=True); shutil.rmtree(tgt, ignore_errors=True)
+    if "--verify-only" in sys.argv:
+        # phase 1 only: store the confirmed seed; run the checks later with --recheck
+        dst = "/verif/seeded/%s" % name
+        os.makedirs(dst, exist_ok=True)
+        for f in ("patch.diff", "demo.rs", "demo_cmd.txt"):
+            shutil.copy(os.path.join(src, f), os.path.join(dst, f))
+        res["checks"] = {}
+        meta["verification"] = res
+        meta["detected_by"] = {}
+        json.dump(meta, open(os.path.join(dst, "meta.json"), "w"), indent=1)
+        print(json.dumps(res, indent=1))
+        return 0
     # run the checks against /repo with the patch applied
     rc, out = sh(["git", "-C", "/repo", "status", "--short"])
     if out.strip():
